@@ -131,6 +131,9 @@ def run(model: RepoModel, rep, tier: str):
     _r5(model, rep)
     _r6(model, rep)
     _r7(model, rep)
+    from ..generic import check_accumulators
+    check_accumulators(model, rep, "C05.R8", [SH, IH], C05_ADJUDICATED,
+                       "declarations, visible scopes or import candidates gathered so far are incomplete, so some names stay unresolved or bind elsewhere", 5)
 
 
 # ---------------------------------------------------------------------------------------------- R1
@@ -1077,7 +1080,20 @@ def _enclosing_if(root, node) -> Optional[ast.If]:
 
 
 # ---------------------------------------------------------------------------------------------- self-test
+C05_ADJUDICATED = {
+    "basics/import_hierarchy.py::ImportHierarchy.parse_import_path_from_module_worklist::matched_nodes::return under `name_to_be_matched == '*'`":
+        "wildcard component: the whole current work-list is the answer, nothing further is matched",
+    "basics/import_hierarchy.py::ImportHierarchy.parse_import_path_from_module_worklist::matched_nodes::return under `len(matched_nodes) == 0`":
+        "no node matches this component: the remaining path is handed back to the caller",
+    "basics/import_hierarchy.py::ImportHierarchy.parse_import_path_from_module_worklist::matched_nodes::rebound `matched_nodes = []`":
+        "one match list per path component; the matches of the last component are the result by design",
+}
+
 MUTANTS = [
+    ("first declaring scope only", SH,
+     lambda s: M.text_replace(s, "                symbol_name_to_scope_ids[symbol_name].add(row.scope_id)\n",
+                              "                symbol_name_to_scope_ids[symbol_name].add(row.scope_id)\n                if len(symbol_name_to_scope_ids) > 4096:\n                    break\n"),
+     "C05.R8"),
     ("closures re-homed to the class", SH,
      lambda s: M.text_replace(s, "                    if method_decl.parent_stmt_id == stmt.methods:\n                        # 只处理直接属于class的methods，不处理嵌套在其他method内部的闭包methods\n                        item = self.scope_space.find_first_by_id(method_decl.stmt_id)\n                        item.scope_id = stmt_id\n                        self.stmt_id_to_scope_id_cache[method_decl.stmt_id] = stmt_id",
                               "                    if True:\n                        item = self.scope_space.find_first_by_id(method_decl.stmt_id)\n                        item.scope_id = stmt_id\n                        self.stmt_id_to_scope_id_cache[method_decl.stmt_id] = stmt_id"),
